@@ -6,6 +6,7 @@
 import PygModel.Fill
 import PygProofs.Lemmas.FillLemmas
 import PygProofs.Lemmas.FillIndep
+import PygProofs.Lemmas.FillRows
 
 namespace Pyg.Props.C12
 open Pyg Pyg.Fill
@@ -233,15 +234,6 @@ theorem fillna_keeps (ms : List Method) (lim : Option Nat) (f g : Frame) (hms : 
       obtain ⟨b1, b2, b3⟩ := ih f1 (fun m' hm' => hms m' (by simp [hm'])) hw.1 hw.2 h
       exact ⟨b1.trans a1, b2.trans a2, fun j i v hv => b3 j i v (a3 j i v hv)⟩
 
-/-- row `r` of a result comes from row `r0` of the input: same timestamp, same width, every non-NaN cell kept -/
-def RowKept (r0 r : Int × List (Option Int)) : Prop :=
-  r.1 = r0.1 ∧ r.2.length = r0.2.length ∧ ∀ (j : Nat) (v : Int), r0.2[j]? = some (some v) → r.2[j]? = some (some v)
-
-theorem RowKept.refl (r : Int × List (Option Int)) : RowKept r r := ⟨rfl, rfl, fun _ _ h => h⟩
-
-theorem RowKept.trans {a b c : Int × List (Option Int)} (h1 : RowKept a b) (h2 : RowKept b c) : RowKept a c :=
-  ⟨h2.1.trans h1.1, h2.2.1.trans h1.2.1, fun j v h => h2.2.2 j v (h1.2.2 j v h)⟩
-
 theorem row_cell (f : Frame) (i j : Nat) (v : Int) (hi : i < f.nrows) (hr : f.Rect) :
     (f.row i).2[j]? = some (some v) ↔ cell f j i = some (some v) := by
   simp only [Frame.row, cell, List.getElem?_map]
@@ -250,25 +242,6 @@ theorem row_cell (f : Frame) (i j : Nat) (v : Int) (hi : i < f.nrows) (hr : f.Re
   | some c =>
     have hl : i < c.2.length := by rw [hr c (List.mem_of_getElem? hc)]; exact hi
     simp [List.getD_eq_getElem?_getD, List.getElem?_eq_getElem hl]
-
-theorem map_getD_range (l : List Int) : (List.range l.length).map (fun i => l.getD i 0) = l := by
-  apply List.ext_getElem?
-  intro i
-  by_cases hi : i < l.length
-  · simp [hi, List.getD_eq_getElem?_getD]
-  · simp [hi]
-
-/-- selecting rows by increasing positions only removes rows -/
-theorem gather_rows_kept (f : Frame) (pos : List Nat) (hp : pos.Sublist (List.range f.nrows)) :
-    (f.gather pos).idx.Sublist f.idx ∧ ∀ r ∈ (f.gather pos).rows, r ∈ f.rows := by
-  constructor
-  · have := hp.map (fun i => f.idx.getD i 0)
-    rw [show (List.range f.nrows).map (fun i => f.idx.getD i 0) = f.idx from map_getD_range f.idx] at this
-    exact this
-  · intro r hr
-    rw [Frame.rows_gather] at hr
-    obtain ⟨i, hi, rfl⟩ := List.mem_map.mp hr
-    exact List.mem_map.mpr ⟨i, hp.subset hi, rfl⟩
 
 /-- ONE step of any method: rows are only removed (never added, reordered or relabelled), the columns stay, and every
 row of the result is a row of the input with all its non-NaN cells intact -/
